@@ -1164,7 +1164,7 @@ func specialC15(seed int64, thorough bool, tmp string) *Special {
 	if thorough {
 		nh, nops = 400, 25
 	}
-	sp.Rule = fmt.Sprintf("%d histories of %d operations (reads with exclusion bitmaps, Segment.WriteTo, merges with deletion bitmaps) over 3 segments (built, merged, loaded) and 3 bitmaps; before the history and after every operation each segment's full dump and persisted bytes and each bitmap's serialised bytes and container statistics are compared with the initial snapshot; plus segments of 1,100-2,200 documents read by an interleaved two-reader / two-iterator script before and after merges and persists; non-trivial = a history containing a merge or a persist between two observations", nh, nops)
+	sp.Rule = fmt.Sprintf("%d histories of %d operations (reads with exclusion bitmaps, statistics accumulated into the objects a segment hands out, Segment.WriteTo, merges with deletion bitmaps) over 3 segments (built, merged, loaded) and 3 bitmaps; before the history and after every operation each segment's full dump and persisted bytes and each bitmap's serialised bytes and container statistics are compared with the initial snapshot; plus segments of 1,100-2,200 documents read by an interleaved two-reader / two-iterator script before and after merges and persists; non-trivial = a history containing a merge or a persist between two observations", nh, nops)
 	opCount := map[string]int{}
 	for h := 0; h < nh; h++ {
 		in := NewInterp(Current, tmp)
@@ -1247,7 +1247,28 @@ func specialC15(seed int64, thorough bool, tmp string) *Special {
 			si := g.R.Intn(len(segs))
 			seg := segs[si]
 			var what string
-			switch g.R.Intn(8) {
+			switch g.R.Intn(9) {
+			case 7:
+				// what a multi-segment reader does per search: the statistics object a segment hands out is
+				// the caller's accumulator (CollectionStats.Merge adds into its receiver); adding another
+				// segment's statistics to it must not reach the segment
+				what = "stats(accumulated by the caller)"
+				safely(func() error {
+					other := segs[g.R.Intn(len(segs))]
+					for _, f := range seg.Fields() {
+						acc, err := seg.CollectionStats(f)
+						if err != nil {
+							return err
+						}
+						if st, err := other.CollectionStats(f); err == nil {
+							acc.Merge(st)
+						}
+						if again, err := seg.CollectionStats(f); err == nil {
+							acc.Merge(again)
+						}
+					}
+					return nil
+				})
 			case 0: // iterate a postings list with an exclusion bitmap
 				ft := g.pickFT(fts)
 				what = "postings+except"
